@@ -1,6 +1,12 @@
 mod common;
+mod corpus;
 mod dets;
+mod dtree;
+mod gast;
+mod gen;
+mod layout;
 mod mon;
+mod prog;
 
 use common::*;
 use std::time::Instant;
